@@ -146,11 +146,46 @@ func runWalks(col *collector, level, target string, n int, fetch Fetch, sigPrefi
 	}
 }
 
+// runLongWalks pages through a long list with a few page sizes, from both ends and from positions
+// around offset 128, forwards and backwards.
+func runLongWalks(col *collector, target string, n int, fetch Fetch, rankBase int) {
+	r := 0
+	for _, k := range []int{1, 50, 127, 128, 129} {
+		for _, fwd := range []bool{true, false} {
+			for _, start := range []int{-1, 126, 127, 128, n - 2} {
+				r++
+				visited, reqs, v := walk(fetch, n, k, fwd, start)
+				col.mu.Lock()
+				col.walks++
+				col.walkPages += reqs
+				if v.OK {
+					col.states[fmt.Sprintf("longwalk/%s/%d/%d/%v/%d", target, n, k, fwd, start)] = struct{}{}
+				}
+				col.mu.Unlock()
+				if !v.OK {
+					if len(visited) > 12 {
+						visited = visited[:12]
+					}
+					col.violation(rankBase+r, "connection-walk", "long-list:"+v.Sig, fmt.Sprintf("%s, list of %d: %s (first visited %v …)", target, n, clipDetail(v.Detail), visited),
+						Case{Level: "connection-walk", Target: target, N: n, K: k, Forward: fwd, Start: start}, nil)
+				}
+			}
+		}
+	}
+}
+
+func clipDetail(s string) string {
+	if len(s) > 300 {
+		return s[:300] + " …"
+	}
+	return s
+}
+
 var assumptions = []string{
 	"connection level: the generated functions are called directly with the same cursor scheme the resolvers use (connections.OffsetToCursor of the list offset) on lists of distinguishable elements",
 	"resolver level: requests go through the real GraphQL handler (gqlgen server built by api/graphql.NewHandler) over a real RepoCache on a tmpfs repository; the full list returned without arguments is the reference order of that list",
 	"where the statement is silent every outcome is accepted: `before` at or before `after` (inverted window), first and last given together (flags not judged), cursors that are well-formed but designate no element (rejected, ignored or taken literally), undecodable cursors (rejected or ignored); a flag is accepted when it is truthful either about the window left by after/before or about the list",
-	"bounded: list lengths 0..N for the connection functions, the populated repository's list lengths for the resolvers; page sizes 1..n+1",
+	"bounded: list lengths 0..N for the connection functions (full product) plus walks over lists of 129 and 300 elements, the populated repository's list lengths for the resolvers; page sizes 1..n+1",
 }
 
 // Main is the entry point of `harness C20`.
@@ -173,7 +208,9 @@ func run(replay string, noResolvers bool, scratch string) int {
 	if tier == "thorough" {
 		maxN = 10
 	}
-	fx, err := newFixtures(maxN + 1)
+	// long lists: walked (not the full product) at lengths around and beyond a power of two
+	longNs := []int{129, 300}
+	fx, err := newFixtures(longNs[len(longNs)-1] + 1)
 	if err != nil {
 		fmt.Fprintln(os.Stderr, "harness error:", err)
 		return 2
@@ -195,6 +232,13 @@ func run(replay string, noResolvers bool, scratch string) int {
 			call := fn.Call
 			runProduct(col, "connection", fn.Name, n, pts, func(in Input) Page { return call(nn, in) }, false, "", fi*1000000+n*100000)
 			runWalks(col, "connection-walk", fn.Name, n, func(in Input) Page { return call(nn, in) }, "", fi*1000000+n*100000)
+		}
+	}
+	for fi, fn := range funcs {
+		for _, n := range longNs {
+			nn := n
+			call := fn.Call
+			runLongWalks(col, fn.Name, n, func(in Input) Page { return call(nn, in) }, 50000000+fi*1000000+n*1000)
 		}
 	}
 	conEvals, conWalks, conWalkPages := col.evals, col.walks, col.walkPages
